@@ -131,6 +131,11 @@ pub struct Core {
     pub steps: u64,
     pub budget: u64,
     pub budget_hit: bool,
+    /// bytes of command outputs and stream writes so far; beyond `byte_budget` the run is stopped like on the step
+    /// budget (a loop whose values or output grow without bound)
+    pub bytes: u64,
+    pub byte_budget: u64,
+    pub byte_budget_hit: bool,
     pub d0_starts: u64,
     pub last_d0_error: bool,
     pub handler_name: Option<String>,
@@ -163,6 +168,9 @@ impl Core {
             steps: 0,
             budget: 20_000,
             budget_hit: false,
+            bytes: 0,
+            byte_budget: u64::MAX,
+            byte_budget_hit: false,
             d0_starts: 0,
             last_d0_error: false,
             handler_name: None,
@@ -304,6 +312,21 @@ pub struct Wrapped {
     inner: CommandBox,
 }
 
+/// What the run thread is doing right now, for the hang report of the watchdog (which runs on another thread):
+/// the command in flight with its arguments, or a phase of the harness itself.
+pub static IN_FLIGHT: std::sync::Mutex<String> = std::sync::Mutex::new(String::new());
+
+pub fn phase(what: &str) {
+    if let Ok(mut g) = IN_FLIGHT.lock() {
+        g.clear();
+        g.push_str(what);
+    }
+}
+
+pub fn in_flight() -> String {
+    IN_FLIGHT.lock().map(|g| g.clone()).unwrap_or_default()
+}
+
 impl Command for Wrapped {
     fn name(&self) -> String {
         self.inner.name()
@@ -329,6 +352,14 @@ impl Command for Wrapped {
             env,
         } = context;
         let name = self.inner.name();
+        if let Ok(mut g) = IN_FLIGHT.lock() {
+            g.clear();
+            g.push_str(&name);
+            for a in arguments.iter().take(6) {
+                g.push(' ');
+                g.extend(a.chars().take(60));
+            }
+        }
 
         // ---- start
         let (info, over_budget, hook) = SIM.with(|s| {
@@ -376,7 +407,11 @@ impl Command for Wrapped {
                     handler,
                 });
             }
-            let over = core.steps > core.budget;
+            let mut over = core.steps > core.budget;
+            if core.bytes > core.byte_budget {
+                core.byte_budget_hit = true;
+                over = true;
+            }
             if over {
                 core.budget_hit = true;
             }
@@ -460,10 +495,24 @@ impl Command for Wrapped {
                 core.last_d0_error = !info.handler && matches!(result, CommandResult::Error(_));
             }
             let seq = core.next_seq();
+            core.bytes += result_out(&result).map(|o| o.len() as u64).unwrap_or(0);
             let out = if core.redact.contains(&name) {
                 result_out(&result).map(|o| format!("<redacted:{}>", len_class(o.len())))
             } else {
-                result_out(&result)
+                // (very long outputs are recorded by head, length and a hash: a loop that returns ever longer values
+                // must end on the step budget, not on the memory of the log)
+                result_out(&result).map(|o| {
+                    if o.len() > (64 << 10) {
+                        let mut h: u64 = 0xcbf29ce484222325;
+                        for b in o.as_bytes() {
+                            h = (h ^ *b as u64).wrapping_mul(0x100000001b3);
+                        }
+                        let head: String = o.chars().take(256).collect();
+                        format!("{}...<{} bytes, fnv {:016x}>", head, o.len(), h)
+                    } else {
+                        o
+                    }
+                })
             };
             if !core.quiet {
                 core.log.push(Event::End {
@@ -563,12 +612,17 @@ impl SimWriter {
     fn log(&self, n: usize, res: &str) {
         let hook = with_core(|c| {
             let seq = c.next_seq();
-            c.log.push(Event::Write {
-                seq,
-                stream: self.stream.to_string(),
-                n,
-                res: res.to_string(),
-            });
+            c.bytes += n as u64;
+            // (a script that prints in an endless loop ends on the step budget, not on the memory of the harness:
+            // beyond a million events successful writes are no longer recorded)
+            if res != "ok" || c.log.len() < 1_000_000 {
+                c.log.push(Event::Write {
+                    seq,
+                    stream: self.stream.to_string(),
+                    n,
+                    res: res.to_string(),
+                });
+            }
             if res != "ok" {
                 *c.fired.entry("F7".to_string()).or_insert(0) += 1;
             }
@@ -618,7 +672,10 @@ impl Write for SimWriter {
                 Ok(0)
             }
             _ => {
-                self.buf.borrow_mut().extend_from_slice(data);
+                // (same: at most 64 MiB of output are kept)
+                if self.buf.borrow().len() < (64 << 20) {
+                    self.buf.borrow_mut().extend_from_slice(data);
+                }
                 self.log(data.len(), "ok");
                 Ok(data.len())
             }
